@@ -74,6 +74,31 @@ func (cx *Ctx) bceSSAProof(ix *ast.IndexExpr) (bool, string) {
 				}
 			}
 		}
+		// x[pos(x)] where pos is a module function that hands back a negative constant or a position it met while
+		// ranging over the very slice it was given, and the result was found >= 0
+		if ic, isC := idx.(*ssa.Call); isC {
+			if g := calleeOf(ic); g != nil && g.Blocks != nil && g.Pkg != nil && isModulePath(g.Pkg.Pkg.Path()) && g.Signature.Results().Len() == 1 {
+				for k, a := range ic.Call.Args {
+					if k >= len(g.Params) || !(a == x || cx.Fx.path(a) != "" && cx.Fx.path(a) == cx.Fx.path(x)) {
+						continue
+					}
+					all := true
+					for _, ret := range returnsOf(g) {
+						if !cx.negOrPositionOf(ret.Results[0], g.Params[k], map[ssa.Value]bool{}) {
+							all = false
+						}
+					}
+					if !all {
+						continue
+					}
+					for _, at := range cx.Fx.AtomsAt(in) {
+						if bo, isB := stripNot(at.Cond).(*ssa.BinOp); isB && at.Op == "LT" && at.Neg && bo.X == ssa.Value(ic) && at.B == "const:0" {
+							return true, "index handed back by " + g.Name() + ", which returns a negative constant or a position of the slice it ranged over, and tested >= 0"
+						}
+					}
+				}
+			}
+		}
 		return false, "index is not a constant"
 	}
 	p := &bceProver{cx: cx, fn: in.Parent(), at: in, busy: map[ssa.Value]bool{}}
@@ -396,4 +421,53 @@ func (p *bceProver) escapedBefore(o *ssa.Alloc, seen map[*ssa.Alloc]bool) bool {
 		return false
 	}
 	return addrUse(o)
+}
+
+// negOrPositionOf: v is a negative constant, the index of a `for i := range list` loop over the parameter list (the
+// incremented loop counter, found below len(list) on the edge it is taken from), or a merge of such values.
+func (cx *Ctx) negOrPositionOf(v ssa.Value, list *ssa.Parameter, seen map[ssa.Value]bool) bool {
+	if seen[v] {
+		return true
+	}
+	seen[v] = true
+	fx := cx.Fx
+	switch x := v.(type) {
+	case *ssa.Const:
+		n, ok := constInt(x)
+		return ok && n < 0
+	case *ssa.Phi:
+		for i, e := range x.Edges {
+			if bo, isB := e.(*ssa.BinOp); isB {
+				// the loop counter: phi(-1, counter+1) + 1, below len(list) on this edge
+				ph, isPhi := bo.X.(*ssa.Phi)
+				one, isOne := constInt(bo.Y)
+				if bo.Op != token.ADD || !isPhi || !isOne || one != 1 {
+					return false
+				}
+				for _, pe := range ph.Edges {
+					if pe == ssa.Value(bo) {
+						continue
+					}
+					if n, ok := constInt(pe); !ok || n != -1 {
+						return false
+					}
+				}
+				below := false
+				for _, a := range fx.AtomsOnEdge(x.Block().Preds[i], x.Block()) {
+					if a.Op == "LT" && !a.Neg && a.A == fx.path(bo) && a.B == "len("+fx.path(list)+")" {
+						below = true
+					}
+				}
+				if !below {
+					return false
+				}
+				continue
+			}
+			if !cx.negOrPositionOf(e, list, seen) {
+				return false
+			}
+		}
+		return true
+	}
+	return false
 }
